@@ -740,7 +740,12 @@ impl Server {
         });
 
         // --- upload acknowledgements (2.31, final ack, 4.13) -----------
-        if let Some((rn, _rm, rs)) = r_b1 {
+        // A block served from the cache repeats the cached response's options
+        // (possibly an old Block1 echo): that is not an acknowledgement the
+        // handler chose for this request.
+        let is_b1_ack = arr.block1.is_some() && (arr.app.is_some() || (arr.ireq == Some(HOut::Handled) && rcode == 0x5F && r_b2.is_none()))
+            || (arr.block1.is_none() && arr.ireq == Some(HOut::Handled) && rcode == 0x8D);
+        if let (Some((rn, _rm, rs)), true) = (r_b1, is_b1_ack) {
             let in_premise = m <= 1280 && m >= arr.req_overhead + 28;
             if in_premise {
                 stats.hit("c10.b1ack.in-premise");
